@@ -14,7 +14,7 @@ for d in sorted(glob.glob('/verif/seeded/C*-[mnpq]*')):
         if len(l)>25 and not l.lower().startswith(('seed','c0','c1','notes')):
             desc=l; break
     if not desc: desc=notes.strip().splitlines()[0] if notes.strip() else ''
-    desc=re.sub(r'\s+',' ',desc)[:170]
+    desc=re.sub(r'\s+',' ',desc)[:170].replace('|','/')
     ran=sorted(m.get('checks',{}).keys())
     rows.append((m['id'], desc, ', '.join(m.get('caught_by',[])) or '**none**', 'yes' if m.get('confirmed') else 'NO', len(ran)))
 print('| seed | change (first line of its NOTES.md) | caught by (quick checks that were run against it and reported a violation) | confirmed | checks run |')
